@@ -109,19 +109,23 @@ def set_z (prec : Nat) (z : Int) : F :=
 
 /- ------------------------------------------------------------------ mul -/
 
+/-- mul.c:67-82 on the selected limbs: full product, drop the top limb if it is zero, keep prec+1.
+    Returns (result limbs, adj). -/
+def mulLimbs (prec : Nat) (up vp : List Nat) : List Nat × Nat :=
+  let rsize := up.length + vp.length             -- :67
+  let tp := toLimbs rsize (val up * val vp)      -- :69-71 mpn_mul
+  let adj := if topLimb tp = 0 then 1 else 0     -- :73 cy_limb == 0
+  (top (prec + 1) (tp.take (rsize - adj)), adj)  -- :74-80
+
 /-- mul.c:26-87 -/
 def mul (prec : Nat) (u v : F) : F :=
   let up := top prec u.d                         -- :44-48
   let vp := top prec v.d                         -- :49-53
   if up.length = 0 ∨ vp.length = 0 then zero prec   -- :55-59
   else
-    let rsize := up.length + vp.length           -- :67
-    let tp := toLimbs rsize (val up * val vp)    -- :69-71 mpn_mul
-    let adj := if topLimb tp = 0 then 1 else 0   -- :73 cy_limb == 0
-    let tp1 := tp.take (rsize - adj)             -- :74
-    let rp := top (prec + 1) tp1                 -- :75-80
+    let (rp, adj) := mulLimbs prec up vp
     let negp := (u.size < 0) != (v.size < 0)     -- :37 sign_product
-    ⟨prec, if negp then -(rp.length : Int) else rp.length, u.exp + v.exp - adj, rp⟩
+    ⟨prec, if negp then -(rp.length : Int) else rp.length, u.exp + v.exp - adj, rp⟩   -- :83-84
 
 /-- mul_ui.c:82-173.  The carry-in scan (:122-158) yields exactly the carry of the full product into
     the kept limbs, i.e. the kept limbs are those of floor(u*v / B^excess). -/
